@@ -1074,8 +1074,11 @@ class parser(object):
         val_is_ampm = True
 
         # If there's already an AM/PM flag, this one isn't one.
-        if fuzzy and ampm is not None:
-            val_is_ampm = False
+        if ampm is not None:
+            if fuzzy:
+                val_is_ampm = False
+            else:
+                raise ValueError('More than one AM or PM flag.')
 
         # If AM/PM is found and hour is not, raise a ValueError
         if hour is None:
